@@ -5,8 +5,10 @@
 use std::io::{BufRead, Write};
 
 mod common;
+mod conc_mode;
 mod config_mode;
 mod sketch_mode;
+mod stress_mode;
 mod sync_mode;
 mod unsync_mode;
 
@@ -46,7 +48,9 @@ fn process(input: &mut dyn BufRead, out: &mut dyn Write) {
                 let cfg = parse_cfg(&toks[1..]);
                 runner = Some(match cfg.get("kind").copied() {
                     Some("sketch") => Box::new(sketch_mode::SketchRunner::default()),
+                    Some("conc") => Box::new(conc_mode::ConcRunner::new(&cfg)),
                     Some("config") => Box::new(config_mode::ConfigRunner),
+                    Some("stress") => Box::new(stress_mode::StressRunner::new(&cfg)),
                     Some("sync") => Box::new(sync_mode::SyncRunner::new(&cfg)),
                     Some("unsync") => Box::new(unsync_mode::UnsyncRunner::new(&cfg)),
                     k => panic!("unknown kind {:?}", k),
